@@ -626,6 +626,27 @@ pub fn run_c05(ctx: &mut Ctx) {
             let how = rng.below(4);
             let end_of_req = bounds[ri];
             let mode = *rng.pick(&[Mode::Dest, Mode::Internal, Mode::Mixed]);
+            if how == 0 && rng.chance(1, 3) {
+                // sync-API hand-over WITHOUT deselecting the stream first, with stream data parsed into the internal buffer and not
+                // consumed: into_request_parser discards it — it must not reach the next request parser as protocol input
+                if let Some(cur) = d.active {
+                    let sbase = (if ri == 0 { 0 } else { bounds[ri - 1] }) + r.wire_pre.len();
+                    let mut o2 = sbase; let mut target = None;
+                    for rec in &r.case.recs { let l = rec.ser().len(); if rec.rtype == cur && rec.id == r.case.id && !rec.content.is_empty() && o2 >= pos { target = Some(o2 + l); break; } o2 += l; }
+                    if let Some(t) = target {
+                        let mut okp = true;
+                        while pos < t && d.free > 0 && okp { let n = (t - pos).min(d.free).min(1 + rng.usize_below(64)); okp = d.parse(&mut log, &mut im, &mut or, &wire[pos..pos + n], None); pos += n; }
+                        if okp && pos == t && d.boundary && !d.buf.is_empty() && !d.last_end {
+                            d.consume_output_all(&mut log, &mut im);
+                            let o = ex(&mut log, &mut im, "str.into_req");
+                            if !o.starts_with("ok") { or.fail(format!("into_request_parser at a record boundary (stream data still buffered) failed: {o}"), log.replay_block(), "C05:into-req".into()); okcase = false; break; }
+                            free = field(&o, "free").and_then(|x| x.parse().ok()).unwrap_or(0);
+                            unread_any = true; or.count("handover_with_buffered_stream_data");
+                            continue;
+                        }
+                    }
+                }
+            }
             if how != 0 {
                 // bounded number of reading steps for 'partly'
                 // the client keeps one request outstanding: bytes of request i+1 arrive only after request i was closed
